@@ -18,6 +18,7 @@ type fop struct {
 	ID     string   `json:"id"`
 	Schema string   `json:"schema,omitempty"` // component schema the operation's 200 response refers to
 	PP     bool     `json:"pp,omitempty"`     // the operation's path item declares shared parameters (a component header and an inline query)
+	Via    bool     `json:"via,omitempty"`    // the schema is reached through a component response used by this operation only
 }
 type fcfg struct {
 	It []string `json:"it"`
@@ -66,11 +67,18 @@ func keepOracle(c fcfg, o fop) bool {
 func buildFilterDoc(ops []fop, schemas []string) J {
 	paths := J{}
 	pp := false
+	viaResps := J{}
 	for _, o := range ops {
 		pi := getJ(paths, o.Path)
 		resp := J{"description": "d"}
 		if o.Schema != "" {
 			resp["content"] = J{"application/json": J{"schema": J{"$ref": "#/components/schemas/" + o.Schema}}}
+		}
+		if o.Schema != "" && o.Via {
+			// operation -> component response (its only user) -> schema: removing the operation orphans the response in one
+			// pruning pass and the schema in the next
+			viaResps["R"+o.ID] = resp
+			resp = J{"$ref": "#/components/responses/R" + o.ID}
 		}
 		op := J{"operationId": o.ID, "responses": J{"200": resp}}
 		if len(o.Tags) > 0 {
@@ -107,6 +115,9 @@ func buildFilterDoc(ops []fop, schemas []string) J {
 		comps := J{"schemas": sc}
 		if pp {
 			comps["parameters"] = doc["components"].(J)["parameters"]
+		}
+		if len(viaResps) > 0 {
+			comps["responses"] = viaResps
 		}
 		doc["components"] = comps
 	}
@@ -291,6 +302,19 @@ func c16Generate(ctx *Ctx, ops []fop, schemas []string, cfg fcfg, fw string) err
 		}
 		gotSchemas = g2
 	}
+	var gotResps, wantResps []string
+	if emb.Components != nil {
+		gotResps = SortedKeys(emb.Components.Responses)
+	}
+	for _, op := range ops {
+		if op.Schema != "" && op.Via && keepOracle(cfg, op) && len(schemas) > 0 {
+			wantResps = append(wantResps, "R"+op.ID)
+		}
+	}
+	sort.Strings(wantResps)
+	if Canon(orEmpty(gotResps)) != Canon(orEmpty(wantResps)) {
+		ctx.Res.Violate(sig("pruned-responses"), fmt.Sprintf("after filter+prune the component responses are %v, the kept operations use %v", gotResps, wantResps), replay)
+	}
 	wantSchemas = SortedKeys(needed)
 	if Canon(orEmpty(gotSchemas)) != Canon(orEmpty(wantSchemas)) {
 		ctx.Res.Violate(sig("pruned-schemas"), fmt.Sprintf("after filter+prune the schemas are %v, the kept operations need %v", gotSchemas, wantSchemas), replay)
@@ -389,7 +413,7 @@ func runC16(ctx *Ctx) error {
 		}
 		return out
 	}
-	methods := []string{"GET", "POST", "PUT", "DELETE", "PATCH"}
+	methods := []string{"GET", "POST", "PUT", "DELETE", "PATCH", "HEAD", "OPTIONS", "TRACE"}
 	randOps := func(r *Rng) []fop {
 		n := 1 + r.Intn(6)
 		ops := []fop{}
@@ -437,6 +461,7 @@ func runC16(ctx *Ctx) error {
 		for j := range ops2 {
 			if r.Chance(70) {
 				ops2[j].Schema = schemas[r.Intn(len(schemas))]
+				ops2[j].Via = r.Chance(40)
 			}
 		}
 		ppPaths := map[string]bool{"/p": r.Chance(50), "/q": r.Chance(30), "/r": r.Chance(30)}
@@ -450,6 +475,16 @@ func runC16(ctx *Ctx) error {
 		}
 		if err := c16Generate(ctx, ops2, schemas, cfg, fws[i%len(fws)]); err != nil {
 			return err
+		}
+	}
+	// a pruning pass whose only orphan is a component response: the schema behind it goes in the next pass
+	for _, fw := range fws {
+		ops := []fop{{Path: "/p", Method: "GET", Tags: []string{"a"}, ID: "OpA", Schema: "S0"},
+			{Path: "/p", Method: "POST", Tags: []string{"b"}, ID: "OpB", Schema: "S2", Via: true}}
+		for _, cfg := range []fcfg{{It: []string{}, Et: []string{"b"}, Ii: []string{}, Ei: []string{}}, {It: []string{}, Et: []string{}, Ii: []string{"OpA"}, Ei: []string{}}} {
+			if err := c16Generate(ctx, ops, []string{"S0", "S1", "S2", "S3"}, cfg, fw); err != nil {
+				return err
+			}
 		}
 	}
 	return nil
